@@ -125,17 +125,20 @@ def run(run):
                 continue
             for mag in ((0.5, 4.0) if quick else (0.5, 2.0, 20.0, 100.0)):
                 Y = (1 - 2 * X[sel]) * mag
-                for bsz in ((len(sel),) if quick else (len(sel), 1)):
+                # one decoder object is reused with growing batches: a single row first, then the whole batch (then, thorough, row by row)
+                for bsz in ((0, len(sel)) if quick else (0, len(sel), 1)):
                     try:
                         if bsz == 1:
                             O = torch.cat([dec(Y[i:i + 1]) for i in range(len(sel))], dim=0)
+                        elif bsz == 0:
+                            O = dec(Y[:1])
                         else:
                             O = dec(Y)
-                        outs = [bits(O[i]) for i in range(len(sel))]
+                        outs = [bits(O[i]) for i in range(O.shape[0])]
                         r2 = False
                     except Exception as ex:
-                        outs, r2 = [[] for _ in sel], True
-                    for i, o in zip(sel, outs):
+                        outs, r2 = [[] for _ in (sel[:1] if bsz == 0 else sel)], True
+                    for i, o in zip(sel[:1] if bsz == 0 else sel, outs):
                         tid += 1
                         evs.append({"ev": "Clean", "tid": tid, "msg": msgs[i], "out": o, "raised": r2, "mag": str(mag), "batch": bsz})
                         meta.append((dname, dict(cfg, regime=regime)))
